@@ -11,7 +11,7 @@ def hook_commits():
         return []
 
 # ids whose check exists in the harness (keep in sync with harness/src/props/mod.rs)
-IMPLEMENTED = ["C01", "C02", "C03", "C05", "C06", "C07", "C08", "C16", "C17", "C18", "C19", "C22"]
+IMPLEMENTED = ["C01", "C02", "C03", "C04", "C05", "C06", "C07", "C08", "C09", "C10", "C11", "C12", "C16", "C17", "C18", "C19", "C20", "C21", "C22", "C23", "C24"]
 
 PBT = "property-based testing (proptest byte-driven generators, 16 seeded runners, shrinking to a replay file)"
 REFI = "Trusts the harness's reference unifier/interpreter (model/*.rs, small and independent of the implementation) and the finite universe used for instance comparison."
@@ -26,6 +26,9 @@ TABLE = {
  "C03": (PBT + " with per-answer invariants (closedness, constraint relevance by own traversal) and a reference interpreter for sharing/distinctness of reified variables",
          "Every answer of generated list/compound programs is checked for `_`-only variables, constraints over answer variables only, LResult::constraints() completeness through lists and compounds, and equivalence with the reference answer. Exploration.",
          REFI),
+ "C04": (PBT + ": metamorphic relation - random permutations of every conjunction and clause list must preserve the answer multiset (tree and CLP(FD) profiles)",
+         "Generated tree programs and flat CLP(FD) programs (with an inserted disjunction) are run as written and under up to 6 permutations of all goal lists and clause lists; answer multisets (instance-set equivalence / ground tuples) must agree. Exploration.",
+         "Implementation compared with itself under reordering; no reference model needed."),
  "C05": (PBT + " against a reference depth-first interpreter, position by position, observed through a ticket fngoal (engine order) and at the iterator",
          "Generated search programs (nested cond/conjunction/fresh/closure, list relations on literal lists) wrapped in dfs{}: the order in which states leave the depth-first block and the order at the iterator must both equal the reference's Prolog order. Exploration.",
          REFI),
@@ -37,6 +40,18 @@ TABLE = {
          "Needs the cfg-guarded step counter in StreamEngine::step; bounded liveness only."),
  "C08": (PBT + ": metamorphic relation between a committed-choice program and the program with the committed head (conda) or its first head answer re-imposed (condu/onceo); reference interpreter for conda and matcha/matchu",
          "conda/condu/onceo over generated heads with 0/1/many/lazy/infinite answers and generated rest goals; matcha/matchu built dynamically. Exploration.",
+         REFI),
+ "C09": (PBT + ": run-to-run differential (same Query object twice, 4 rebuilt runs, 2 re-exec'd child processes with fresh hash seeds), fusedness invariant, bounded-step laziness check",
+         "Canonical answer sequences of tree, search and CLP(FD) programs must be identical position by position across repeated runs and processes; the iterator must stay None; take(n) of productive infinite programs must finish within a step budget. Exploration; hash seeds are sampled, not enumerated.",
+         "std RandomState cannot be controlled from outside: other processes' seeds are sampled. Needs the step-counter hook for the laziness half."),
+ "C10": (PBT + ": metamorphic relation - conde{A,B[,C]} after a shared prefix equals the multiset union of the branches run alone, in both branch orders, with an instrumented User type",
+         "Shared prefixes with pending constraints (disequalities, plusz/timesz, FD domains, distinctfd) and user-state updates followed by 2-3 branches from the same vocabulary; the user counter is exposed as a query variable. Exploration.",
+         "Implementation compared with itself; answers compared up to renaming and constraint equivalence."),
+ "C11": (PBT + " against the reference interpreter (project = body evaluated on the walked value per state); failures with >=2 states reaching the goal are the listed known finding",
+         "Programs where 0-4 states reach a project goal with non-relational fngoal bodies (also resumed later); multiset equality with the reference and no panic. The single-state cases are fully checked; multi-state cases hit C11-project-reached-twice. Exploration.",
+         REFI),
+ "C12": (PBT + ": metamorphic relation for-loop vs explicit per-element conjunction, plus reference interpreter (tree bodies)",
+         "everyg with collections of 0-4 terms (Vec and LTerm list), bodies over the loop variable, query variables and a body-local fresh variable (tree and FD bodies). Exploration. The surface `for` form is covered by C14's compile pipeline.",
          REFI),
  "C16": (PBT + " against brute-force enumeration of the domain product (soundness verdict)",
          "Generated CLP(FD) programs with aliasing, signed domains, sparse domains, hidden variables, shuffled posting order, list/compound query terms; every answer must be a brute-force solution. Exploration.",
@@ -50,9 +65,21 @@ TABLE = {
  "C19": (PBT + " against an integer-arithmetic fixpoint oracle; exhaustive enumeration of one constraint over all groundness patterns, posting orders and values -2..=2 in both tiers",
          "plusz/timesz programs with bindings in every order, aliasing and chains: consistent => exactly the determined integers, inconsistent => no answer, 0*r=0 leaves r free, never a panic; undecided (algebra) cases get soundness only. Exploration plus a completely enumerated sub-space.",
          "Trusts the 80-line arithmetic oracle in props/c19.rs."),
+ "C20": (PBT + ": metamorphic relation compound program vs twin with every constructor encoded as a tagged proper list, plus reference interpreter",
+         "==/!= programs over six compound kinds (unnamed, named, same-shape-different-type, recursive typed, Rust tuple) mixed with lists and literals, and CLP(FD) programs with compound query terms; answers under the encoding must equal the twin's. Exploration.",
+         REFI),
+ "C21": (PBT + " against structural equality on the AST and a Vec(+tail) model of the list API",
+         "Triples of related terms (clone, rebuilt copy, one-point mutation): ==, Hash consistency, and every list operation (constructors, iter, iter_mut, Index/IndexMut, extend, head/tail, predicates, contains, Display) against the model. Exploration.",
+         "Trusts the harness's AST equality and its 40-line model."),
  "C22": (PBT + " with an instrumented User type: history invariants at probe goals after every goal, and reference path traces",
          "Generated programs run with a User type counting with_constraint/take_constraint/process_extension; balance with the store size is checked at a probe after every goal (also on failing branches), at the end of the body and after reification; extension bindings are checked against the substitution; probe traces and extension counts per answer against the reference path. Exploration.",
          REFI),
+ "C23": (PBT + ": crash oracle (catch_unwind per case, panic keyed by message and file) over every generator of the framework at enlarged bounds, BFS and DFS builds",
+         "No panic other than the step-budget payload on several hundred thousand generated well-formed programs per run (overflow checks and debug assertions on). Exploration.",
+         "Well-formedness is enforced by construction in the generators."),
+ "C24": (PBT + " (solution-first generation, every argument mode) against Vec-based definitions; exhaustive ground mode and one-hole modes over lists of length <=3 over {1,2} in thorough",
+         "Each of the ten list relations is queried in ground, partially ground and fresh modes derived from constructed solutions and perturbed non-solutions; soundness of every answer instance, ground-mode equivalence, documented multiplicities of member/member1, coverage of the seed solution in finite modes. permute's sub-list answers are the listed known finding. Exploration plus an enumerated sub-space.",
+         "Trusts model/listrel.rs (60 lines)."),
 }
 CLAIMED = {k: (TABLE[k][0], TABLE[k][1], TABLE[k][2], "DESIGN.md §7 " + k) for k in IMPLEMENTED}
 PENDING_REASON = "check not implemented yet in this revision of the framework (work in progress; see DESIGN.md §7 for the planned generator and oracle)"
